@@ -19,7 +19,8 @@ RULE = ('generated applications (2-4 services, 6-14 methods with case variants, 
         'route per method, verb-restricted for every other method; near-miss paths); custom names: _operation_name, _in_message_name, and the '
         'cooperating pair "A published under an in-message name, B published under A\'s python name"; names sent: every registered one, and per registered name '
         'its case flip, one char added/removed front/back, and the name qualified with another namespace; non-trivial = a request that was '
-        'dispatched or refused with a decoded fault; distinct by (channel, permutation, name class, outcome).')
+        'dispatched or refused with a decoded fault; distinct by (channel, permutation, name class, outcome).'
+        ' Also: decoy requests that name one method and mention another elsewhere, methods whose request element is declared in another namespace, bare methods over foreign-namespace types, odd msgpack-rpc name kinds and corrupted binary msgpack keys, auxiliary services, six duplicate shapes at construction.')
 ASSUMPTIONS = [
     'an unqualified XML root (no namespace at all) is recorded, not judged: the statement speaks of "a different namespace"',
     'auxiliary methods: one SyncAuxProc service per second application, listed first or last',
